@@ -6,10 +6,14 @@ path, onClose removal, DELETE).  Serves C11.
 
 A labelled transition system.  One label = one atomic section of the Go code:
 
-* `postBegin`   `lookupSession` (critical section under `h.mu` + the owner check on the immutable
-                `userID`) followed by `startPOST` (critical section under `timerMu`) and the hand-over
-                of the message to the session's transport; or, without a session id, the creation
-                section (`Connect`, `time.AfterFunc`, insertion under `h.mu`, `startPOST`).
+* `postBegin`   with a session id: `lookupSession` (critical section under `h.mu` + the owner check on
+                the immutable `userID`) followed by `startPOST` (critical section under `timerMu`) and
+                the hand-over of the message to the session's transport; without a session id:
+                `GetSessionID` + `Server.Connect` — the new server session exists and is listed by
+                `Server.Sessions()`, but is not yet in `h.sessions`.
+* `publish`     the rest of the creation path: `time.AfterFunc`, the publication critical section
+                under `h.mu` (F20: it must not publish a session whose `onClose` has already run),
+                `startPOST`, hand-over of the creating POST's message to the transport.
 * `handlerDone` a request handler of the server session returns (for `initialize`: sets
                 `InitializeParams`).
 * `postEnd`     the deferred `endPOST` (under `timerMu`); for the creating POST also the deferred
@@ -24,9 +28,16 @@ A labelled transition system.  One label = one atomic section of the Go code:
                 disconnected from `Server.sessions`, and `onClose` (under `h.mu`) stops the timer for
                 good and deletes the map entry.  (DESIGN §5 C11: modelled as one label.)
 
-Removed entries stay in the model's table, flagged `removed`: the handler's map is the set of entries
-with `removed = false`; keeping the history is what lets "an id addresses one session" and "dead after
-removal" be stated at all.  Ghost fields (never read by the modelled code): `posts`, `idleSince`.
+Removed entries stay in the model's table, flagged `removed` (server-side session closed and
+forgotten, `onClose` done); `inMap` says whether the id is a key of `h.sessions`.  Keeping the history
+is what lets "an id addresses one session" and "dead after removal" be stated at all.  Ghost fields
+(never read by the modelled code): `posts`, `idleSince`.
+
+F20 (found by this engine, repaired by fixes/F20-publish-after-close.patch): a server-side close that
+lands between `Connect` and the publication ran `onClose` before there was anything to delete, and the
+unconditional publication then left a dead session in `h.sessions` for ever.  `Cfg.publishChecks`
+selects the repaired publication (`true`, regenerated from the source) or the original one (`false`,
+kept for the counter-example theorem).
 
 Session ids are minted by `ServerOptions.GetSessionID` (default `crypto/rand.Text`): modelled as a
 counter, i.e. freshness of minted ids is part of the trusted base.
@@ -72,7 +83,9 @@ structure Sess where
   refs : Nat
   timer : Timer
   closing : Bool          -- `Close` has begun on the server session (`connClosing`)
-  removed : Bool          -- deleted from `h.sessions`, disconnected from the server
+  removed : Bool          -- server session closed, disconnected from the server, `onClose` has run
+  inMap : Bool            -- the id is a key of `h.sessions`
+  pending : Option Kind   -- creating POST between `Connect` and publication: its message
   initialized : Bool      -- `InitializeParams() != nil`
   creating : Bool         -- the creating POST has not ended yet
   busy : Nat              -- handlers in flight other than `initialize`
@@ -84,6 +97,7 @@ deriving DecidableEq, Repr
 structure Cfg where
   stateless : Bool
   timeout : Nat           -- `SessionTimeout` in ms; 0 = none
+  publishChecks : Bool := true  -- F20: the publication skips a session whose `onClose` has already run
 deriving DecidableEq, Repr
 
 structure State where
@@ -99,6 +113,7 @@ def init (cfg : Cfg) : State := { cfg := cfg, now := 0, next := 0, tbl := [], ep
 inductive Label where
   | postBegin (sid : Option Nat) (u : User) (k : Kind)
   | handlerDone (sid : Nat) (isInit : Bool)
+  | publish (sid : Nat)
   | postEnd (sid : Option Nat) (creator : Bool)
   | get (sid : Option Nat) (u : User)
   | delete (sid : Option Nat) (u : User)
@@ -137,12 +152,12 @@ def modify (i : Nat) (f : Sess → Option Sess) : List Sess → Option (List Ses
       | some t' => some (e :: t')
       | none => none
 
-/-- `lookupSession`: the status to answer with, or the live entry. -/
+/-- `lookupSession`: the status to answer with, or the entry of `h.sessions`. -/
 def lookup (tbl : List Sess) (i : Nat) (u : User) : Except Nat Sess :=
   match findSess i tbl with
   | none => .error stNotFound
   | some e =>
-    if e.removed then .error stNotFound
+    if !e.inMap then .error stNotFound
     else match e.owner with
       | none => .ok e
       | some o => if u = some o then .ok e else .error stForbidden
@@ -166,7 +181,7 @@ def startPost (k : Kind) (e : Sess) : Sess := deliver k (startTimer e)
 /-- `endPOST`, then (creating POST only) the failed-initialize cleanup. -/
 def endPost (now timeout : Nat) (creator : Bool) (e : Sess) : Option Sess :=
   if e.posts = 0 then none
-  else if creator && !e.creating then none
+  else if creator && (!e.creating || e.pending.isSome) then none
   else if !creator && e.creating && e.posts = 1 then none
   else
     let e := { e with posts := e.posts - 1 }
@@ -197,16 +212,28 @@ def closeF (e : Sess) : Option Sess :=
 
 def closeDoneF (e : Sess) : Option Sess :=
   if e.removed || !e.closing || e.busy ≠ 0 || e.initBusy ≠ 0 then none
-  else some { e with removed := true, timer := .nil }
+  else some { e with removed := true, inMap := false, timer := .nil }
 
+/-- `Server.Connect` on the creation path: the server session exists, nothing is published yet. -/
 def newSess (s : State) (u : User) (k : Kind) : Sess :=
-  { id := s.next, owner := u,
-    refs := if s.cfg.timeout = 0 then 0 else 1,
-    timer := if s.cfg.timeout = 0 then .nil else .stopped,
-    closing := false, removed := false, initialized := false, creating := true,
-    busy := (match k with | .badInit | .call => 1 | _ => 0),
-    initBusy := (match k with | .init => 1 | _ => 0),
+  { id := s.next, owner := u, refs := 0, timer := .nil,
+    closing := false, removed := false, inMap := false, pending := some k,
+    initialized := false, creating := true, busy := 0, initBusy := 0,
     posts := 1, idleSince := s.now }
+
+/-- `time.AfterFunc`, insertion into `h.sessions`, `startPOST` (which stops the fresh timer). -/
+def publishedSess (timeout : Nat) (e : Sess) : Sess :=
+  { e with pending := none, inMap := true,
+           timer := (if timeout = 0 then Timer.nil else Timer.stopped),
+           refs := (if timeout = 0 then 0 else 1) }
+
+/-- The rest of the creation path: timer, publication under `h.mu`, `startPOST`, hand-over. -/
+def publishF (checks : Bool) (timeout : Nat) (e : Sess) : Option Sess :=
+  match e.pending with
+  | none => none
+  | some k =>
+    if checks && e.removed then some { e with pending := none }
+    else some (deliver k (publishedSess timeout e))
 
 def stepStateless (s : State) : Label → Option (State × Resp)
   | .postBegin _ _ _ => some ({ s with eph := s.eph + 1 }, .forward none true)
@@ -219,9 +246,14 @@ def stepStateless (s : State) : Label → Option (State × Resp)
 
 def stepStateful (s : State) : Label → Option (State × Resp)
   | .postBegin none u k =>
-    let e := newSess s u k
-    some ({ s with tbl := s.tbl ++ [e], next := s.next + 1 },
-          .forward (if k.isInitialize then some e.id else none) true)
+    some ({ s with tbl := s.tbl ++ [newSess s u k], next := s.next + 1 }, .tau)
+  | .publish i =>
+    match findSess i s.tbl, modify i (publishF s.cfg.publishChecks s.cfg.timeout) s.tbl with
+    | some e, some t =>
+      some ({ s with tbl := t },
+            .forward (match e.pending with | some k => if k.isInitialize then some i else none | none => none)
+                     (!e.closing))
+    | _, _ => none
   | .postBegin (some i) u k =>
     match lookup s.tbl i u with
     | .error st => some (s, .reject st)
@@ -249,7 +281,7 @@ def stepStateful (s : State) : Label → Option (State × Resp)
     | .error st => some (s, .reject st)
     | .ok _ =>
       match modify i closeF s.tbl with
-      | none => none
+      | none => some (s, .closeAccepted)       -- `Close` on an already closed session is a no-op
       | some t => some ({ s with tbl := t }, .closeAccepted)
   | .other _ _ => some (s, .reject stOtherMethod)
   | .tick d => some ({ s with now := s.now + d }, .tau)
@@ -286,7 +318,10 @@ def trace (s : State) : List Label → List (Label × Resp)
     | some (s', r) => (l, r) :: trace s' ls
     | none => trace s ls
 
-/-- `Server.Sessions()` / keys of `h.sessions` at a quiescent point. -/
-def liveIds (s : State) : List Nat := (s.tbl.filter (fun e => !e.removed)).map (·.id)
+/-- Keys of `h.sessions`. -/
+def liveIds (s : State) : List Nat := (s.tbl.filter (fun e => e.inMap)).map (·.id)
+
+/-- `Server.Sessions()` (stateful endpoint). -/
+def serverIds (s : State) : List Nat := (s.tbl.filter (fun e => !e.removed)).map (·.id)
 
 end Sessions
